@@ -19,7 +19,7 @@ from .apdu import encode_max_segments_accepted, decode_max_segments_accepted, \
     SimpleAckPDU, UnconfirmedRequestPDU, apdu_types, \
     unconfirmed_request_types, confirmed_request_types, complex_ack_types, \
     error_types
-from .errors import RejectException, AbortException, UnrecognizedService
+from .errors import RejectException, AbortException, RejectOther, UnrecognizedService
 
 # some debugging
 _debug = 0
@@ -1414,6 +1414,12 @@ class ApplicationServiceAccessPoint(ApplicationServiceElement, ServiceAccessPoin
                 except AbortException as err:
                     ApplicationServiceAccessPoint._debug("    - decoding abort: %r", err)
                     error_found = err
+                except Exception as err:
+                    # malformed parameters can fail outside the reject family
+                    # (unbalanced tags, missing choice, short data), the client
+                    # still needs an answer
+                    ApplicationServiceAccessPoint._exception("confirmed request decoding error: %r", err)
+                    error_found = RejectOther()
 
             # no error so far, keep going
             if not error_found:
